@@ -1990,6 +1990,82 @@ func E9DepthFromResultEdge(c *core.Ctx, r *core.Report) {
 		} else {
 			r.OK("E9.depth-from-result-edge", key, c.Pos(as.Pos()), "flag "+flag)
 		}
+		// segments of open sub-paths are passed over as well: either the loop condition skips X.open, or the flag
+		// itself excludes them where it is assigned
+		key2 := fmt.Sprintf("canvas.bentleyOttmann|depth read #%d is not taken from a segment of an open sub-path", n)
+		openName := sweepOpenField(p)
+		boolField := func(e ast.Expr, recvObj types.Object, name string) bool {
+			s2, ok := core.Unparen(e).(*ast.SelectorExpr)
+			if !ok || s2.Sel.Name != name {
+				return false
+			}
+			if recvObj == nil {
+				return true
+			}
+			rid, ok := core.Unparen(s2.X).(*ast.Ident)
+			return ok && core.ObjOf(info, rid) == recvObj
+		}
+		skipsOpen := false
+		ast.Inspect(fd.Body, func(k ast.Node) bool {
+			f, ok := k.(*ast.ForStmt)
+			if !ok || f.Cond == nil || f.Pos() > as.Pos() {
+				return true
+			}
+			ast.Inspect(f.Cond, func(q ast.Node) bool {
+				b, ok := q.(*ast.BinaryExpr)
+				if !ok || b.Op != token.LOR {
+					return true
+				}
+				var atoms []ast.Expr
+				var flat func(e ast.Expr)
+				flat = func(e ast.Expr) {
+					e = core.Unparen(e)
+					if bb, ok := e.(*ast.BinaryExpr); ok && bb.Op == token.LOR {
+						flat(bb.X)
+						flat(bb.Y)
+						return
+					}
+					atoms = append(atoms, e)
+				}
+				flat(b)
+				hasFlag, hasOpen := false, false
+				for _, a := range atoms {
+					if u, ok := a.(*ast.UnaryExpr); ok && u.Op == token.NOT && boolField(u.X, X, flag) {
+						hasFlag = true
+					}
+					if boolField(a, X, openName) {
+						hasOpen = true
+					}
+				}
+				if hasFlag && hasOpen {
+					skipsOpen = true
+				}
+				return true
+			})
+			return true
+		})
+		if !skipsOpen {
+			ast.Inspect(fd.Body, func(k ast.Node) bool {
+				a2, ok := k.(*ast.AssignStmt)
+				if !ok || len(a2.Lhs) != 1 || len(a2.Rhs) != 1 || a2.Pos() > firstDec {
+					return true
+				}
+				if l, ok := a2.Lhs[0].(*ast.SelectorExpr); ok && l.Sel.Name == flag {
+					ast.Inspect(a2.Rhs[0], func(q ast.Node) bool {
+						if u, ok := q.(*ast.UnaryExpr); ok && u.Op == token.NOT && boolField(u.X, nil, openName) {
+							skipsOpen = true
+						}
+						return true
+					})
+				}
+				return true
+			})
+		}
+		if skipsOpen {
+			r.OK("E9.depth-from-result-edge", key2, c.Pos(as.Pos()), "")
+		} else {
+			r.Fail("E9.depth-from-result-edge", key2, c.Pos(as.Pos()), fmt.Sprintf("the walk down the prev chain stops at any segment with `%s`, also at one of an open sub-path: the segments of an open contour all carry the depth found where that contour started, which may be another face (an open line that enters a filled square from outside carries depth 0 inside it), so a hole directly above it is built as a filling contour. An open segment has the same face on both sides and must be passed over", flag))
+		}
 		return true
 	})
 	r.Count("E9.depth-reads", n)
@@ -2940,4 +3016,191 @@ func E9CopyDropsStatusNode(c *core.Ctx, r *core.Report) {
 	}
 	r.Count("E9.status-node-copies", n)
 	r.Floor("E9.status-node-copies", 1)
+}
+
+// E9WindingInherited: the winding numbers below a segment come from the segment below it whenever there is one.
+func E9WindingInherited(c *core.Ctx, r *core.Report) {
+	r.Rule("E9.winding-inherited", "SweepPoint.computeSweepFields derives the winding numbers below the current segment from the nearest non-vertical segment below it: that segment's own winding numbers plus its contribution. A segment of an open sub-path contributes nothing but still lies in a face and carries that face's numbers, so the inheritance may depend on nothing but the existence of such a segment (and on whether both belong to the same operand, which swaps the two counters). Every assignment of the receiver's windings/otherWindings from the fields of the segment below is reached under conditions that are only nil tests of that segment and comparisons of the `clipping` flags; the walk that skips segments skips vertical ones only. Any further condition (`!prev.open`) restarts the count at zero above some segments, and contours inside a filled face are kept or dropped wrongly")
+	p := c.MustPkg("")
+	info := p.TypesInfo
+	fd := core.MustFuncDecl(p, "SweepPoint.computeSweepFields")
+	r.Func("canvas.SweepPoint.computeSweepFields")
+	recv := info.Defs[fd.Recv.List[0].Names[0]]
+	var below types.Object
+	if fd.Type.Params.NumFields() > 0 && len(fd.Type.Params.List[0].Names) > 0 {
+		below = info.Defs[fd.Type.Params.List[0].Names[0]]
+	}
+	if recv == nil || below == nil {
+		panic(core.Infra("computeSweepFields: receiver / first parameter not found"))
+	}
+	mentions := func(e ast.Node, o types.Object) bool {
+		hit := false
+		ast.Inspect(e, func(m ast.Node) bool {
+			if id, ok := m.(*ast.Ident); ok && core.ObjOf(info, id) == o {
+				hit = true
+			}
+			return !hit
+		})
+		return hit
+	}
+	// atoms of a path condition: (expr, polarity) with && split under positive and || under negative polarity
+	type atom struct {
+		e   ast.Expr
+		pos bool
+	}
+	var split func(e ast.Expr, pos bool, out *[]atom)
+	split = func(e ast.Expr, pos bool, out *[]atom) {
+		e = core.Unparen(e)
+		if u, ok := e.(*ast.UnaryExpr); ok && u.Op == token.NOT {
+			split(u.X, !pos, out)
+			return
+		}
+		if b, ok := e.(*ast.BinaryExpr); ok && ((b.Op == token.LAND && pos) || (b.Op == token.LOR && !pos)) {
+			split(b.X, pos, out)
+			split(b.Y, pos, out)
+			return
+		}
+		*out = append(*out, atom{e, pos})
+	}
+	allowed := func(a atom) bool {
+		b, ok := a.e.(*ast.BinaryExpr)
+		if !ok || (b.Op != token.EQL && b.Op != token.NEQ) {
+			return false
+		}
+		isNil := func(e ast.Expr) bool {
+			id, ok := core.Unparen(e).(*ast.Ident)
+			return ok && id.Name == "nil"
+		}
+		isBelow := func(e ast.Expr) bool {
+			id, ok := core.Unparen(e).(*ast.Ident)
+			return ok && core.ObjOf(info, id) == below
+		}
+		if (isNil(b.X) && isBelow(b.Y)) || (isNil(b.Y) && isBelow(b.X)) {
+			return true
+		}
+		isClip := func(e ast.Expr) bool {
+			se, ok := core.Unparen(e).(*ast.SelectorExpr)
+			return ok && se.Sel.Name == "clipping"
+		}
+		return isClip(b.X) && isClip(b.Y)
+	}
+	n := 0
+	var walk func(list []ast.Stmt, conds []atom)
+	var stmt func(s ast.Stmt, conds []atom)
+	stmt = func(s ast.Stmt, conds []atom) {
+		switch x := s.(type) {
+		case *ast.BlockStmt:
+			walk(x.List, conds)
+		case *ast.IfStmt:
+			var t, f []atom
+			t = append(t, conds...)
+			f = append(f, conds...)
+			split(x.Cond, true, &t)
+			split(x.Cond, false, &f)
+			walk(x.Body.List, t)
+			if x.Else != nil {
+				stmt(x.Else, f)
+			}
+		case *ast.ForStmt:
+			// the walk down: `for below != nil && below.F { below = below.prev }` may skip vertical segments only
+			if x.Cond != nil && mentions(x.Cond, below) {
+				var as []atom
+				split(x.Cond, true, &as)
+				for _, a := range as {
+					if allowed(a) {
+						continue
+					}
+					n++
+					key := "canvas.SweepPoint.computeSweepFields|segments skipped below|" + types.ExprString(a.e)
+					se, ok := a.e.(*ast.SelectorExpr)
+					if ok && a.pos && se.Sel.Name == "vertical" {
+						r.OK("E9.winding-inherited", key, c.Pos(x.Pos()), "")
+					} else {
+						r.Fail("E9.winding-inherited", key, c.Pos(x.Pos()), fmt.Sprintf("the walk to the segment below also skips segments with `%s`: only vertical segments have no face above them; skipping others takes the winding numbers from the wrong face", types.ExprString(a.e)))
+					}
+				}
+			}
+			walk(x.Body.List, conds)
+		case *ast.AssignStmt:
+			for i, l := range x.Lhs {
+				se, ok := core.Unparen(l).(*ast.SelectorExpr)
+				if !ok || !mentions(se.X, recv) || (se.Sel.Name != "windings" && se.Sel.Name != "otherWindings") {
+					continue
+				}
+				if len(x.Lhs) != len(x.Rhs) || !mentions(x.Rhs[i], below) {
+					continue
+				}
+				n++
+				key := fmt.Sprintf("canvas.SweepPoint.computeSweepFields|%s inherited #%d", se.Sel.Name, n)
+				bad := ""
+				for _, a := range conds {
+					if !allowed(a) {
+						neg := ""
+						if !a.pos {
+							neg = "not "
+						}
+						bad = neg + "`" + types.ExprString(a.e) + "`"
+					}
+				}
+				if bad == "" {
+					r.OK("E9.winding-inherited", key, c.Pos(x.Pos()), fmt.Sprintf("%d conditions, all nil tests of the segment below or comparisons of clipping", len(conds)))
+				} else {
+					r.Fail("E9.winding-inherited", key, c.Pos(x.Pos()), fmt.Sprintf("`%s` takes the winding numbers from the segment below only when %s holds: a segment that contributes no winding of its own (an open sub-path) still lies in a face whose winding numbers it carries, so when the condition fails the count restarts at zero and the contour above is judged as if nothing enclosed it", types.ExprString(l)+" = "+types.ExprString(x.Rhs[i]), bad))
+				}
+			}
+		}
+	}
+	walk = func(list []ast.Stmt, conds []atom) {
+		for _, s := range list {
+			stmt(s, conds)
+		}
+	}
+	walk(fd.Body.List, nil)
+	r.Count("E9.winding-inherited", n)
+	r.Floor("E9.winding-inherited", 3)
+}
+
+// sweepOpenField names the boolean field of SweepPoint that marks a segment of an open sub-path: the one whose
+// negation guards the assignment of the receiver's own winding contribution in computeSweepFields.
+func sweepOpenField(p *packages.Package) string {
+	info := p.TypesInfo
+	fd := core.MustFuncDecl(p, "SweepPoint.computeSweepFields")
+	recv := info.Defs[fd.Recv.List[0].Names[0]]
+	name := ""
+	ast.Inspect(fd.Body, func(m ast.Node) bool {
+		is, ok := m.(*ast.IfStmt)
+		if !ok {
+			return true
+		}
+		u, ok := core.Unparen(is.Cond).(*ast.UnaryExpr)
+		if !ok || u.Op != token.NOT {
+			return true
+		}
+		se, ok := core.Unparen(u.X).(*ast.SelectorExpr)
+		if !ok {
+			return true
+		}
+		if id, ok := core.Unparen(se.X).(*ast.Ident); !ok || core.ObjOf(info, id) != recv {
+			return true
+		}
+		assignsSelf := false
+		ast.Inspect(is.Body, func(k ast.Node) bool {
+			if as, ok := k.(*ast.AssignStmt); ok {
+				for _, l := range as.Lhs {
+					if ls, ok := l.(*ast.SelectorExpr); ok && ls.Sel.Name == "selfWindings" {
+						assignsSelf = true
+					}
+				}
+			}
+			return true
+		})
+		if assignsSelf && name == "" {
+			name = se.Sel.Name
+		}
+		return true
+	})
+	if name == "" {
+		panic(core.Infra("computeSweepFields: the guard `!recv.F` of the self-winding assignment was not found"))
+	}
+	return name
 }
